@@ -566,6 +566,7 @@ type aeReq struct {
 	Log        *SimLog
 	F          string // fork of the tree proved against
 	EF         string // fork the entries are taken from
+	EF0        string // fork of the entries of the first package only (default EF)
 	Start, End int64
 	Tree       int64 // size of the tree the subtree proofs are for (normally End)
 	Ticket     []byte
@@ -584,9 +585,15 @@ func (inc *Inc) AddEntries(q aeReq) *Req {
 	if q.Tree == 0 {
 		q.Tree = q.End
 	}
-	body := l.AddEntriesBody(q.F, q.EF, q.Start, q.End, q.Tree, q.Ticket, q.MaxPkg, q.Cut)
+	if q.EF0 == "" {
+		q.EF0 = q.EF
+	}
+	body := l.AddEntriesBodyEF0(q.F, q.EF0, q.EF, q.Start, q.End, q.Tree, q.Ticket, q.MaxPkg, q.Cut)
 	ent := "right"
 	if q.EF != q.F && q.End > l.ForkPoint {
+		ent = "wrong"
+	}
+	if q.EF0 != q.F && min(q.End, q.Start-q.Start%256+256) > l.ForkPoint {
 		ent = "wrong"
 	}
 	tk := q.TicketKind
@@ -934,4 +941,195 @@ func FamilyMirror(r *Runner) {
 			})
 		}
 	}
+}
+
+// FamilyMirror2: scenarios added after reviewing independently seeded defects.
+func FamilyMirror2(r *Runner) {
+	// A storage fault inside the last (mid-tile) package, a later upload in the
+	// same tile whose commit fails, then a commit at the first size with its
+	// ticket: the cut tiles of that size must be there.
+	var nops int
+	prep := func(w *World) (*Inc, *SimLog, error) {
+		l := mirrorLog()
+		inc, err := w.Start(nil, []*SimLog{l})
+		if err != nil {
+			return nil, nil, err
+		}
+		return inc, l, inc.grow(w, l, "M", 0, 300)
+	}
+	r.Scenario("mirror/cut-after-fault/dry", true, func(w *World) error {
+		inc, l, err := prep(w)
+		if err != nil {
+			return err
+		}
+		w.Gate(true)
+		rq := inc.AddEntries(aeReq{Log: l, F: "M", Start: 0, End: 300})
+		nops = 0
+		for {
+			st := w.progress(rq)
+			if st == "done" {
+				break
+			}
+			if st != "pending" {
+				return fmt.Errorf("dry run stuck")
+			}
+			nops++
+			w.Release(w.PendingOf(rq)[0], OK)
+		}
+		return nil
+	})
+	for k := 0; k < nops; k++ {
+		for _, v := range []Outcome{Fail, FailApplied} {
+			r.Scenario(fmt.Sprintf("mirror/cut-after-fault/op%d-%s", k, v), false, func(w *World) error {
+				inc, l, err := prep(w)
+				if err != nil {
+					return err
+				}
+				w.Gate(true)
+				rq := inc.AddEntries(aeReq{Log: l, F: "M", Start: 0, End: 300})
+				w.Steps(rq, k)
+				p := w.PendingOf(rq)
+				if len(p) == 0 {
+					return fmt.Errorf("no op %d", k)
+				}
+				w.Release(p[0], v)
+				w.Finish(rq)
+				w.Gate(false)
+				// a ticket for size 300 (a start beyond the frontier is refused with mirror-info)
+				rt := inc.AddEntries(aeReq{Log: l, F: "M", Start: 300, End: 300})
+				w.Finish(rt)
+				_, next, ticket, ok := mirrorInfo(rt)
+				if rt.Status == 200 || !ok {
+					return nil // the first upload was committed after all
+				}
+				if err := inc.grow(w, l, "M", 300, 400); err != nil {
+					return nil
+				}
+				// upload towards 400 whose commit fails at the lock store
+				w.Gate(true)
+				r2 := inc.AddEntries(aeReq{Log: l, F: "M", Start: next, End: 400})
+				for i := 0; i < 200; i++ {
+					st := w.progress(r2)
+					if st != "pending" {
+						break
+					}
+					op := w.PendingOf(r2)[0]
+					if op.Kind == "LockReplace" {
+						w.Release(op, Fail)
+					} else {
+						w.Release(op, OK)
+					}
+				}
+				w.Gate(false)
+				// commit at 300 with the ticket, uploading nothing
+				r3 := inc.AddEntries(aeReq{Log: l, F: "M", Start: 300, End: 300, Ticket: ticket, TicketKind: "fresh"})
+				w.Finish(r3)
+				r4 := inc.AddEntries(aeReq{Log: l, F: "M", Start: 300, End: 400})
+				w.Finish(r4)
+				return nil
+			})
+		}
+	}
+	// Forged entries in a package that lies entirely below the frontier, honest
+	// packages above it.
+	for _, first := range []int{1, 2} {
+		r.Scenario(fmt.Sprintf("mirror/forged-below-frontier/pkgs%d", first), false, func(w *World) error {
+			l := NewSimLog("example.com/mlog2", 100, 700)
+			inc, err := w.Start(nil, []*SimLog{l})
+			if err != nil {
+				return err
+			}
+			if err := inc.grow(w, l, "M", 0, 600); err != nil {
+				return err
+			}
+			rq := inc.AddEntries(aeReq{Log: l, F: "M", Start: 0, End: 600, MaxPkg: first})
+			w.Finish(rq)
+			// the frontier is now 256 (or 512); package 0 forged, the rest honest
+			rq = inc.AddEntries(aeReq{Log: l, F: "M", EF0: "A", Start: 0, End: 600})
+			w.Finish(rq)
+			rq = inc.AddEntries(aeReq{Log: l, F: "M", Start: 0, End: 600})
+			w.Finish(rq)
+			return nil
+		})
+	}
+}
+
+// FamilySubtree2: sign-subtree requests that state the checkpoint's root hash
+// with an empty proof for a right-edge range, and forged cosignature lines sent
+// right after a genuine exchange over the same checkpoint text.
+func FamilySubtree2(r *Runner) {
+	for _, n := range []int64{3, 7, 8} {
+		r.Scenario(fmt.Sprintf("subtree/root-hash-empty-proof/n%d", n), false, func(w *World) error {
+			l := NewSimLog("example.com/log1", 100, 10)
+			inc, err := w.Start(nil, []*SimLog{l})
+			if err != nil {
+				return err
+			}
+			text := torchwood.Checkpoint{Origin: l.Origin, Tree: tlog.Tree{N: n, Hash: l.Hash("M", n)}}.String()
+			cp := append(append([]byte{}, l.Checkpoint("M", n, cpOpts{Sig: "valid"})...), w.cosigLines(text, []string{"ml", "mir"}, text)...)
+			root := l.Hash("M", n)
+			for start := int64(0); start < n; start++ {
+				for end := start + 1; end <= n; end++ {
+					valid := torchwood.ValidSubtree(start, end)
+					hashOK := valid && l.SubtreeHash("M", start, end) == root
+					var b strings.Builder
+					fmt.Fprintf(&b, "subtree %d %d\n%s\n\n", start, end, root.String())
+					b.Write(cp)
+					d := map[string]any{"kind": "/sign-subtree", "origin": l.Origin, "known": true, "newN": int(n),
+						"new": l.TreeID("M", n), "start": int(start), "end": int(end), "validRange": valid,
+						"hashOk": hashOK, "proofOk": hashOK && start == 0 && end == n, "cosigners": []string{"ml", "mir"}, "hashBytes": root[:]}
+					rq := inc.Do("/sign-subtree", strings.NewReader(b.String()), nil, d)
+					if !w.Finish(rq) {
+						return fmt.Errorf("sign-subtree stuck")
+					}
+				}
+			}
+			return nil
+		})
+	}
+	r.Scenario("subtree/forged-after-genuine", false, func(w *World) error {
+		l := NewSimLog("example.com/log1", 100, 10)
+		inc, err := w.Start(nil, []*SimLog{l})
+		if err != nil {
+			return err
+		}
+		n := int64(8)
+		text := torchwood.Checkpoint{Origin: l.Origin, Tree: tlog.Tree{N: n, Hash: l.Hash("M", n)}}.String()
+		other := torchwood.Checkpoint{Origin: l.Origin, Tree: tlog.Tree{N: n, Hash: l.Hash("M", n-1)}}.String()
+		logSigned := l.Checkpoint("M", n, cpOpts{Sig: "valid"})
+		send := func(combo []string) error {
+			cp := append(append([]byte{}, logSigned...), w.cosigLines(text, combo, other)...)
+			cos := []string{}
+			for _, k := range combo {
+				if k == "ml" || k == "mir" {
+					cos = append(cos, k)
+				}
+			}
+			for _, rg := range [][2]int64{{0, 8}, {4, 8}, {0, 4}, {6, 7}} {
+				h := l.SubtreeHash("M", rg[0], rg[1])
+				proof := l.SubtreeProof("M", n, rg[0], rg[1])
+				var b strings.Builder
+				fmt.Fprintf(&b, "subtree %d %d\n%s\n", rg[0], rg[1], h.String())
+				for _, p := range proof {
+					b.WriteString(p.String() + "\n")
+				}
+				b.WriteString("\n")
+				b.Write(cp)
+				d := map[string]any{"kind": "/sign-subtree", "origin": l.Origin, "known": true, "newN": int(n),
+					"new": l.TreeID("M", n), "start": int(rg[0]), "end": int(rg[1]), "validRange": true,
+					"hashOk": true, "proofOk": true, "cosigners": cos, "hashBytes": h[:]}
+				rq := inc.Do("/sign-subtree", strings.NewReader(b.String()), nil, d)
+				if !w.Finish(rq) {
+					return fmt.Errorf("sign-subtree stuck")
+				}
+			}
+			return nil
+		}
+		for _, combo := range [][]string{{"ml", "mir"}, {"forged-ml"}, {"forged-mir"}, {"ml", "forged-mir"}, {"forged-ml", "mir"}, {"ml"}, {"forged-ml", "forged-mir"}, {"foreign"}} {
+			if err := send(combo); err != nil {
+				return err
+			}
+		}
+		return nil
+	})
 }
